@@ -51,6 +51,15 @@ func MockSpecs(thorough bool) []*spec.Spec {
 	mk("examples_bool", "kind=bool,card=singular,examples=parsable", spec.M("Resp", spec.F("val", "bool").Ex("true", "false")), nil, nil)
 	mk("examples_double", "kind=double,card=singular,examples=parsable", spec.M("Resp", spec.F("val", "double").Ex("0.5", "-2.25")), nil, nil)
 	mk("examples_int64_unparsable", "kind=int64,card=singular,examples=unparsable", spec.M("Resp", spec.F("val", "int64").Ex("seven", "8")), nil, nil)
+	// position family of the example that does not parse: first / last / middle / both ends, for each parsed kind
+	for _, k := range []struct{ kind, good1, good2, bad string }{{"int64", "8", "-3", "n/a"}, {"int32", "9", "4", "n/a"}, {"double", "2.5", "-0.25", "tbd"}, {"bool", "false", "false", "unknown"}} {
+		for _, pos := range []struct {
+			key string
+			exs []string
+		}{{"last", []string{k.good1, k.bad}}, {"middle", []string{k.good1, k.bad, k.good2}}, {"ends", []string{k.bad, k.good1, k.bad}}, {"tail2", []string{k.good1, k.bad, k.bad}}} {
+			mk("examples_"+k.kind+"_unparsable_"+pos.key, "kind="+k.kind+",card=singular,examples=unparsable_"+pos.key, spec.M("Resp", spec.F("val", k.kind).Ex(pos.exs...)), nil, nil)
+		}
+	}
 	mk("examples_nested", "kind=message,card=singular,examples=parsable",
 		spec.M("Resp", spec.Msg("inner", "Inner")), []*spec.Message{spec.M("Inner", spec.F("val", "string").Ex("x1", "x2"))}, nil)
 	addr := func() *spec.Message {
